@@ -15,6 +15,8 @@ import (
 
 var generators = map[string]func(repo, out string) error{}
 
+func fail(format string, a ...any) error { return fmt.Errorf(format, a...) }
+
 func main() {
 	if len(os.Args) != 4 {
 		names := []string{}
